@@ -59,6 +59,7 @@ func vC11Sections(c *Client) []string {
 		{"SetInterpreter", func() { c.SetInterpreter(interpreter.NewNativeInterpreter()) }},
 		{"ActivateDebug", func() { c.ActivateDebug() }},
 		{"SetItemCollectionMetrics", func() { SetItemCollectionMetrics(c, map[string][]types.ItemCollectionMetrics{}) }},
+		{"GetNativeInterpreter", func() { c.GetNativeInterpreter() }},
 	}
 	names := []string{}
 	for _, s := range secs {
